@@ -5,7 +5,7 @@
 #   3. the demo fails with it, 4. the demo passes without it;  then stores it under /verif/seeded/<NAME>/
 #   and runs the given checks against it in /repo (restoring /repo afterwards).
 set -u
-WT="$1"; NAME="$2"; shift 2
+WT="$1"; NAME="$2"; shift 2; SEEDROOT="${SEEDROOT:-/verif/seeded}"
 export CARGO_NET_OFFLINE=true
 cd "$WT" || exit 2
 git checkout -q -- . 2>/dev/null; rm -f tests/seed_demo.rs
@@ -21,7 +21,7 @@ echo "--- repository suite WITH the change (demo excluded)"
 rm -f tests/seed_demo.rs
 cargo test --workspace --no-fail-fast --offline 2>&1 | grep -E "^test result|FAILED|failed" | head -8
 git checkout -q -- .
-mkdir -p /verif/seeded/$NAME
-cp SEED/patch.diff SEED/seed_demo.rs SEED/notes.md /verif/seeded/$NAME/ 2>/dev/null
+mkdir -p $SEEDROOT/$NAME
+cp SEED/patch.diff SEED/seed_demo.rs SEED/notes.md $SEEDROOT/$NAME/ 2>/dev/null
 echo "--- checks against the change"
-cd /verif && tools/try_patch.sh /verif/seeded/$NAME/patch.diff "$@"
+cd /verif && tools/try_patch.sh $SEEDROOT/$NAME/patch.diff "$@"
